@@ -6,13 +6,15 @@ rs = [json.loads(l) for l in open(sys.argv[1])]
 ids = set(sys.argv[2:])
 DV = os.environ.get("DV", "/verif/bin/dstverif")
 env = dict(os.environ, GOFLAGS="-mod=mod", GOPROXY="off", GOSUMDB="off", GOTOOLCHAIN="local"); env.pop("GOWORK", None)
-root = "/tmp/ms_retry"
+SH = os.environ.get("SHARD", "0/1"); shard, nsh = [int(x) for x in SH.split("/")]
+root = f"/tmp/ms_retry_{shard}"
 shutil.rmtree(root, ignore_errors=True); os.makedirs(root + "/verif")
 subprocess.run(["rsync", "-a", "--exclude", ".git", "/repo/", root + "/repo/"], check=True)
 shutil.copy("/verif/known-findings.json", root + "/verif/")
 still = []
-for r in sorted(rs, key=lambda r: (r["file"], r["line"])):
-    if r["status"] != "survivor" or r.get("caught_by") or r.get("undecided_by"):
+cand = [r for r in sorted(rs, key=lambda r: (r["file"], r["line"], r["id"])) if r["status"] == "survivor" and not (r.get("caught_by") or r.get("undecided_by"))]
+for idx, r in enumerate(cand):
+    if idx % nsh != shard:
         continue
     if ids and r["id"] not in ids:
         continue
@@ -55,4 +57,4 @@ for r in sorted(rs, key=lambda r: (r["file"], r["line"])):
     open(path, "wb").write(src)
 shutil.rmtree(root, ignore_errors=True)
 print(len(still), "still unreported")
-json.dump(still, open("/tmp/mut_still.json", "w"), indent=1)
+json.dump(still, open(f"/tmp/mut_still_{shard}.json", "w"), indent=1)
